@@ -132,6 +132,24 @@ typedef struct
     int seq[MAXL], seq2[MAXL], blk[MAXL];
 } edge;
 
+/* element callbacks: with cb_mode on, the operations that take a destructor or a copy function get recording ones
+   (the destructor notes the value of the element it is handed, the copy function copies and counts) */
+static int cb_mode, cb_final_valid;
+static a_size cb_siz;
+static int dlog[MAXL + 8], ndlog, ncopies, flog[MAXL + 8], nflog;
+static void rec_dtor(void *p)
+{
+    if (ndlog < MAXL) { dlog[ndlog] = get_elem((a_byte const *)p, cb_siz); }
+    ++ndlog;
+}
+static int rec_copy(void *dst, void const *src)
+{
+    memcpy(dst, src, cb_siz);
+    ++ncopies;
+    return 0;
+}
+#define CB_DTOR (cb_mode ? rec_dtor : (void (*)(void *))0)
+#define CB_COPY (cb_mode ? rec_copy : (int (*)(void *, void const *))0)
 static void log_event(FILE *f, edge const *e, int rslot, int rval, int rc, int pnum, int pmem, int psiz, int const *pseq)
 {
     fprintf(f, "{\"kind\":%d,\"op\":\"%s\",\"a1\":%d,\"a2\":%d,\"blk\":", e->kind, opname[e->op], e->a1, e->a2);
@@ -150,6 +168,12 @@ static void log_event(FILE *f, edge const *e, int rslot, int rval, int rc, int p
         fputs(",\"idx\":", f); put_seq(f, walk.idx, walk.ni);
         fputs(",\"ridx\":", f); put_seq(f, walk.ridx, walk.nri);
         fprintf(f, ",\"acc\":%d,\"getters\":[%d,%d,%d]}", walk.acc, walk.g[0], walk.g[1], walk.g[2]);
+    }
+    if (cb_mode)
+    {
+        fputs(",\"cb\":{\"dtor\":", f); put_seq(f, dlog, ndlog > MAXL ? MAXL : ndlog);
+        fprintf(f, ",\"ndtor\":%d,\"copies\":%d}", ndlog, ncopies);
+        if (cb_final_valid) { fputs(",\"final\":", f); put_seq(f, flog, nflog > MAXL ? MAXL : nflog); }
     }
     fputs("}\n", f);
     ++n_events;
@@ -308,6 +332,49 @@ destroy_it:
     return 0;
 }
 
+/* the same transition once more with recording callbacks; the container is then destroyed with the recording destructor
+   as well.  Judged by the trace specification only (contents as before; destructor handed exactly the discarded elements,
+   copy function called once per stored element, destruction hands over exactly what was left). */
+static int run_edge_cb(edge const *e, FILE *fo)
+{
+    obj o;
+    memset(&o, 0, sizeof(o));
+    cur_edge = e;
+    materialise(&o, e->kind, e->siz, e->mem, e->n, e->seq);
+    void *p = NULL;
+    int rc = 0, rslot = -1, rval = 0;
+    a_size oldnum = (a_size)e->n;
+    a_byte blk[MAXL * 16];
+    a_byte keyobj[64];
+    int isvec = e->kind == 1;
+    (void)keyobj; (void)oldnum; (void)p;
+    cb_mode = 1; cb_siz = (a_size)e->siz; ndlog = ncopies = 0; cb_final_valid = 0;
+    f_begin(0, 0);
+#include "seq_ops.inc"
+    f_end();
+#include "seq_post.inc"
+    int pnum = (int)(o_num(&o) > 1000000 ? 1000000 : o_num(&o)), pmem = (int)(o_mem(&o) > 1000000 ? 1000000 : o_mem(&o)), psiz = (int)o_siz(&o);
+    int pseq[MAXL];
+    int readable = pnum <= pmem && pnum <= MAXL;
+    for (int i = 0; readable && i < pnum; ++i) { pseq[i] = get_elem(base(&o) + (a_size)i * (a_size)psiz, (a_size)psiz); }
+    /* destruction with the recording destructor (into the second log) */
+    int keep_n = ndlog, keep[MAXL + 8];
+    memcpy(keep, dlog, sizeof(int) * (size_t)(keep_n > MAXL ? MAXL : keep_n));
+    ndlog = 0; cb_siz = (a_size)psiz;
+    if (readable)
+    {
+        if (isvec) { a_vec_dtor(&o.v, rec_dtor); }
+        else if (o.b) { a_buf_dtor(o.b, rec_dtor); a_alloc(o.b, 0); o.b = NULL; }
+        nflog = ndlog; memcpy(flog, dlog, sizeof(int) * (size_t)(nflog > MAXL ? MAXL : nflog));
+        cb_final_valid = 1;
+    }
+    else { destroy(&o); }
+    ndlog = keep_n; memcpy(dlog, keep, sizeof(int) * (size_t)(keep_n > MAXL ? MAXL : keep_n));
+    log_event(fo, e, rslot, rval, rc, readable ? pnum : 0, pmem, psiz, pseq);
+    cb_mode = 0; cb_final_valid = 0;
+    return 0;
+}
+
 static int run_edge(edge const *e, FILE *fo)
 {
     obj o;
@@ -367,6 +434,7 @@ static int run_edge(edge const *e, FILE *fo)
     if (ok && pmem != e->mem2) { ++n_drift; }
     log_event(fo, e, rslot, rval, rc, lognum, pmem, psiz, pseq);
     destroy(&o);
+    if (e->op >= 7 && e->op <= 11 && e->op != 10) { return run_edge_cb(e, fo); }
     return 0;
 }
 
@@ -406,6 +474,8 @@ static int random_step(obj *po, edge *e, FILE *fo)
     a_byte keyobj[64];
     int isvec = e->kind == 1;
     (void)keyobj;
+    cb_mode = (e->op >= 7 && e->op <= 11 && e->op != 10) ? (int)(rnd() & 1) : 0;
+    cb_siz = (a_size)e->siz; ndlog = ncopies = 0; cb_final_valid = 0;
     f_begin(0, 0);
 #include "seq_ops.inc"
     f_end();
@@ -415,6 +485,7 @@ static int random_step(obj *po, edge *e, FILE *fo)
     if (pnum > MAXL || pnum > pmem) { fprintf(stderr, "random history: length %d beyond the log capacity or the storage %d\n", pnum, pmem); pnum = pnum > MAXL ? MAXL : pnum; }
     for (int i = 0; i < pnum && i < pmem; ++i) { pseq[i] = get_elem(base(&o) + (a_size)i * (a_size)psiz, (a_size)psiz); }
     log_event(fo, e, rslot, rval, rc, pnum, pmem, psiz, pseq);
+    cb_mode = 0;
     *po = o;
     return 0;
 }
